@@ -219,8 +219,25 @@ impl Real for f32 {
         f32::powi(self, n)
     }
     fn max0(self) -> f32 {
-        self
+        // literal documented rule by default; the finiteness witness clamps (see below)
+        if CLAMP32.with(|c| c.get()) {
+            self.max(0.0)
+        } else {
+            self
+        }
     }
+}
+
+thread_local! {
+    static CLAMP32: std::cell::Cell<bool> = std::cell::Cell::new(false);
+}
+
+/// One step of the documented rule in single precision with the variance clamped at its
+/// exact lower bound 0 (what a careful f32 implementation does).
+fn reference_step_clamped(opt: &OptCfg, st: &mut RefState<f32>, g: f32, stepnr: i32) {
+    CLAMP32.with(|c| c.set(true));
+    reference_step(opt, st, g, stepnr);
+    CLAMP32.with(|c| c.set(false));
 }
 
 impl Real for f64 {
@@ -407,7 +424,8 @@ pub(crate) fn draw_optimizer(rng: &mut Rng) -> OptCfg {
                 // g^2 (no single-precision evaluation can represent it); not centred, the step
                 // is g / |g| (see beta2)
                 alpha,
-                epsilon: rng.pick(&EPS),
+                // (centred: not below 1e-8 - see the finiteness oracle)
+                epsilon: if centered { rng.pick(&[0.0f32, 1e-8, 1e-8, 1e-6, 1e-3, 1e-7]) } else { rng.pick(&EPS) },
                 decay: decay(rng),
                 momentum: if rng.chance(0.5) { Some(rng.pick(&[0.5f32, 0.9])) } else { None },
                 centered,
@@ -433,7 +451,7 @@ impl Property for C03 {
         vec![
             "the reference applies the doc-comment equations of each `update` element-wise, with the zero-hyper-parameter substitution exactly as Optimizer::validate performs it (the defaults named in the `create` doc comments differ from those; the property statement does not cover defaults)".into(),
             "values are compared within (1e-4 + 5e-7 t)(1+|w|) after t updates; an element whose f32 and f64 reference trajectories drift apart by more than (5e-6 + 1e-7 t)(1+|w|), or whose f32 reference moves by more than (1e-6 + 5e-8 t)(1+|w|) when the start value is one ulp off or every gradient two ulps larger (a perturbation of 1e-7 amplified sixteen-fold), or whose single step is locally that sensitive, or - Adam / RMSprop with coupled decay - whose effective gradient g + decay w has cancelled to 1e-4 of its terms, is ill-conditioned from then on and only checked for finiteness (counted)".into(),
-            "finiteness is required whenever the f64 shadow trajectory (variance clamped at its exact lower bound 0) stays below 1e30 in magnitude".into(),
+            "finiteness is required whenever the f64 shadow trajectory and the f32 evaluation of the documented rule (variance clamped at its exact lower bound 0) both stay below 1e30 in magnitude".into(),
             "no parallel runtime is involved in this property; the interleaving of slot streams is drawn by the run's PRNG and stored in the case".into(),
         ]
     }
@@ -672,6 +690,8 @@ impl Property for C03 {
                 // documented rule (e.g. bias corrections folded into per-step scalars).
                 let mut p_w = RefState::<f32> { w: f32::from_bits(s.init[i].to_bits().wrapping_add(1)), a: 0.0, b: 0.0, c: 0.0 };
                 let mut p_g = RefState::<f32> { w: s.init[i], a: 0.0, b: 0.0, c: 0.0 };
+                // finiteness witness: single precision, variance clamped
+                let mut wit = RefState::<f32> { w: s.init[i], a: 0.0, b: 0.0, c: 0.0 };
                 let mut conditioned = true;
                 let mut moderate = true;
                 for t in 0..traj.len() {
@@ -722,7 +742,19 @@ impl Property for C03 {
                     if !(r64.w.is_finite() && r64.w.abs() < MODERATE && r64.a.abs() < MODERATE && r64.c.abs() < MODERATE) {
                         moderate = false;
                     }
+                    // ... and the documented rule evaluated in single precision (variance clamped
+                    // at its exact lower bound) must itself stay finite: where a centred variance
+                    // cancels to exactly 0 the step is g / epsilon, and with a small epsilon and
+                    // decay that runs away in *any* f32 implementation of the rule - the exact
+                    // trajectory not overflowing is then no statement about the library
+                    reference_step_clamped(&sub, &mut wit, g, step);
+                    if !(wit.w.is_finite() && (wit.w as f64).abs() < MODERATE && wit.c.is_finite() && wit.a.is_finite()) {
+                        moderate = false;
+                    }
                     if !moderate {
+                        if !lib.is_finite() && std::env::var("VERIF_DEBUG_C03").is_ok() {
+                            eprintln!("DEBUG skipped non-finite: t {} lib {} r32 w {:e} a {:e} b {:e} c {:e} r64 w {:e}", t, lib, r32.w, r32.a, r32.b, r32.c, r64.w);
+                        }
                         break;
                     }
                     if !lib.is_finite() {
